@@ -1,0 +1,31 @@
+// SPDX-FileCopyrightText: 2026 The Pion community <https://pion.ly>
+// SPDX-License-Identifier: MIT
+
+//go:build verif
+
+package packetdump
+
+// Machine-checked contracts (comment-only; read by /verif/govc, never compiled into a normal build).
+//
+// Properties C01, C02: the dump interceptors are transparent and never slice outside the bytes that were read.
+//@ func (*ReceiverInterceptor).BindRemoteStream$1
+//@   modifies *
+//@   ensures read_once: calls("reader.Read") == 1 && callarg("reader.Read", 0) == bytes && callarg("reader.Read", 1) == attributes
+//@   ensures read_error_returned: callres("reader.Read", 2) != nil ==> result0 == 0 && result2 == callres("reader.Read", 2)
+//@   ensures same_length: result2 == nil ==> result0 == callres("reader.Read", 0)
+//@
+//@ func (*ReceiverInterceptor).BindRTCPReader$1
+//@   modifies *
+//@   ensures read_once: calls("reader.Read") == 1 && callarg("reader.Read", 0) == bytes && callarg("reader.Read", 1) == attributes
+//@   ensures read_error_returned: callres("reader.Read", 2) != nil ==> result0 == 0 && result2 == callres("reader.Read", 2)
+//@   ensures same_length: result2 == nil ==> result0 == callres("reader.Read", 0)
+//@
+//@ func (*SenderInterceptor).BindLocalStream$1
+//@   modifies *
+//@   ensures forwarded_once: calls("writer.Write") == 1 && callarg("writer.Write", 0) == header && callarg("writer.Write", 1) == payload && callarg("writer.Write", 2) == attributes
+//@   ensures result_passed: result0 == callres("writer.Write", 0) && result1 == callres("writer.Write", 1)
+//@
+//@ func (*SenderInterceptor).BindRTCPWriter$1
+//@   modifies *
+//@   ensures forwarded_once: calls("writer.Write") == 1 && callarg("writer.Write", 0) == pkts && callarg("writer.Write", 1) == attributes
+//@   ensures result_passed: result0 == callres("writer.Write", 0) && result1 == callres("writer.Write", 1)
